@@ -28,6 +28,26 @@ let handle line =
            | EvDispatched _ -> "D"
            | EvTooBig l -> "T:" ^ hex_of_bytes (too_big_request_frame l)
            | EvClosed -> "X") evs)))
+    | ["wsp"; e; rq; rs; cap; msgs] ->
+      (* pipelined session under back-pressure: id:size,id:size,...  -> the reply multiset, sorted.  Two computations that
+         must agree (theorem C07_pipeline_session): the run of the connection model with its bounded queue of capacity
+         `cap` under the most back-pressured schedule, and the per-message outcome list. *)
+      let c = { max_request = n_of_string rq; max_response = n_of_string rs } in
+      let pm s = match String.split_on_char ':' s with
+        | [i; n] -> { pm_id = n_of_string i; pm_size = n_of_string n }
+        | _ -> failwith "bad pmsg" in
+      let ms = if msgs = "-" then [] else List.map pm (String.split_on_char ',' msgs) in
+      let show = function
+        | PRejected l -> "T:" ^ hex_of_bytes (too_big_request_frame l)
+        | PAnswered i -> "D:" ^ nstr i in
+      let sorted l = List.sort compare (List.map show l) in
+      (match ws_pipeline_session (ep_of e) c (n_of_string cap) ms with
+       | None -> print_endline "-"
+       | Some ((wire, idle), _parked) ->
+         let a = sorted wire and b = sorted (ws_pipeline_replies c ms) in
+         if not idle then print_endline "?model-not-at-rest"
+         else if a <> b then print_endline "?model-run-differs-from-outcome-list"
+         else print_endline (String.concat " " a))
     | ["http"; e; rq; rs; cl; frames] ->
       let c = { max_request = n_of_string rq; max_response = n_of_string rs } in
       let cl = if cl = "-" then None else Some (n_of_string cl) in
